@@ -25,6 +25,9 @@ type PropFunc struct {
 }
 
 type PropSpec struct {
+	// StandIns: driver files (under replay_drivers/) to run as bounded stand-ins in
+	// the QUICK tier too, for functions this property uses through assumed contracts
+	StandIns        []string   `json:"standins,omitempty"`
 	ID              string     `json:"id"`
 	Packages        []string   `json:"packages"`
 	Preludes        []string   `json:"preludes"`
@@ -454,12 +457,16 @@ func cmdCheck(args []string) {
 	// independent oracle) for the property's functions that have a driver.  Labelled
 	// bounded; never counted as discharged; a failing input found is a violation.
 	var standIns []map[string]any
-	if tier == "thorough" {
+	if tier == "thorough" || len(ps.StandIns) > 0 {
 		var fnNames []string
 		for _, g := range gens {
 			fnNames = append(fnNames, g.fnName)
 		}
-		res, found := boundedStandIns(repo, verifDir, fnNames, seed, 30)
+		budget, only := 30, []string(nil)
+		if tier != "thorough" {
+			budget, only = 4, ps.StandIns
+		}
+		res, found := boundedStandIns(repo, verifDir, fnNames, seed, budget, only)
 		standIns = res
 		for _, rep := range found {
 			name := fmt.Sprintf("%v#bounded:%v", rep["function"], rep["driver"])
